@@ -6,6 +6,7 @@ HOOK_COMMITS = subprocess.run(["git", "-C", "/repo", "log", "--format=%h %s"], c
 HOOK_COMMITS = [l.split()[0] for l in HOOK_COMMITS if l.split(" ", 1)[1].startswith("verif hooks")]
 
 ENGINES = {
+ "seqx-txn": ("harness/src/props/c08.rs, harness/src/props/c09.rs", "bounded-exhaustive programs (transaction calls / cursor calls) against the real Transaction API on stores built by a construction script, compared call by call with a reference model"),
  "seqx-world": ("harness/src/world.rs", "bounded-exhaustive operation sequences on the real store under a harness-driven single-threaded runtime (background tasks run only where the sequence says), compared with a reference model after every step; stateless re-execution from a fresh directory"),
 }
 
@@ -21,6 +22,12 @@ CHECKS = {
  "C07": dict(engine="seqx-world", cat="model_checking", tech=SEQ_TECH,
   text="Every sequence of n commits over a 3-letter alphabet and d flush/compaction operations is followed by clean close, reopen (must succeed with the model's content), a probe commit (must be visible), flush and a second reopen; plus memtable-overflow and oversize-transaction scenarios.",
   note="Clean-close part of the property; crash images and crashes inside recovery are enumerated by the crash engine (claimed separately when built). Exhaustive within (n, d) bounds and the fixed option sets.", ref="DESIGN.md §5 C07"),
+ "C08": dict(engine="seqx-txn", cat="model_checking", tech=SEQ_TECH,
+  text="Every transaction program up to a length bound over set / delete / soft delete / replace / explicit-timestamp set on adversarial keys and values, set_savepoint and rollback_to_savepoint, in each mode and with each terminal (commit, rollback, drop), runs on the real store; after every call the result class and all reads (get of every key, both scan directions) are compared with a pending-write-list model, then the closed transaction must reject every call and a fresh transaction must see exactly the surviving writes or nothing.",
+  note="Exhaustive within the program-length bound and the fixed key/value alphabet; one pre-populated snapshot shape (live, deleted, absent key).", ref="DESIGN.md §5 C08"),
+ "C09": dict(engine="seqx-txn", cat="model_checking", tech=SEQ_TECH,
+  text="For every layout of a placement grammar (8 placements per key across write-set, memtable, L0, L1, incl. tombstones and versions invisible to the snapshot), every bounds pair (absent sides, empty, inverted) and every cursor program up to a length bound, the real range cursor is compared step by step (return value, valid, key, value) with a cursor over the sorted list of live keys in [lo, hi).",
+  note="Exhaustive within keys/program-length/reversal bounds; one option set with one entry per block and per index partition; after the cursor ran off an end only seeks are issued (as the property states).", ref="DESIGN.md §5 C09"),
 }
 
 NOT_YET = {}
